@@ -734,6 +734,9 @@ class Datatype(Item):
         try:
             for constr in data['constrs']:
                 constr_type = parser.parse_type(constr['type'])
+                if constr_type.strip_type()[1] != TConst(self.name, *(TVar(arg) for arg in self.args)):
+                    raise ItemException("Datatype %s: constructor %s: result type is not the datatype applied to %s" % (
+                        self.name, constr['name'], ", ".join("'" + arg for arg in self.args) or "no arguments"))
                 if len(constr['args']) != len(constr_type.strip_type()[0]):
                     raise ItemException("Datatype %s: constructor %s: number of argument names differs from number of arguments" % (
                         self.name, constr['name']))
